@@ -40,6 +40,9 @@
 (*         caller's key provider retains (the slice its wrap callback was      *)
 (*         given / its unwrap callback returns on every call) are unchanged    *)
 (*         after the operation: a valid document decrypts any number of times  *)
+(*  pool   twice: after the operation some buffer sits in the package's buffer *)
+(*         pool more than once (two later segment loops would share it and a   *)
+(*         valid message would stop round-tripping)                            *)
 (*  end                                                                       *)
 EXTENDS Naturals, Sequences
 
@@ -144,7 +147,8 @@ CSegN(c, e) ==
   ELSE [c EXCEPT !.segns = @ + 1]
 
 CEnd(c) ==
-  IF c.o.producer = "segfn" THEN (IF c.segns = 0 THEN Bad("no segment function call recorded") ELSE c)
+  IF c.o.producer = "stage" THEN c
+  ELSE IF c.o.producer = "segfn" THEN (IF c.segns = 0 THEN Bad("no segment function call recorded") ELSE c)
   ELSE IF c.refused THEN c
   ELSE IF ~c.docSeen THEN Bad("no document was produced")
   ELSE IF c.segs # NumChunks(c.o.len, c.o.S) THEN Bad("fewer segments than Chunks(len,S)")
@@ -159,6 +163,8 @@ CNext(c, e) ==
          [] e.ev = "doc"    -> CDoc(c, e)
          [] e.ev = "seg"    -> CSeg(c, e)
          [] e.ev = "segn"   -> CSegN(c, e)
+         [] e.ev = "stage"  -> c            \* staging step of a scenario (e.g. a tampered document was rejected first): not judged here
+         [] e.ev = "pool"   -> IF e.twice THEN Bad("pooled buffer is in the pool twice") ELSE c
          [] e.ev = "keycheck" -> IF e.intact THEN c ELSE Bad("caller's retained key bytes were modified")
          [] e.ev = "unwrap" -> CUnwrap(c, e)
          [] e.ev = "dec"    -> CDec(c, e)
